@@ -36,6 +36,18 @@ def generate(ctx):
           ('a', [('s', 'aé'.encode()), ('s', 'üb'.encode()), ('s', '語'.encode())]),
           ('a', [('o', [('aé'.encode(), n1), ('éa'.encode(), n2)])]), ('o', [(b'k', ('o', [('é'.encode(), n1), ('ée'.encode(), n2)]))])]
     ds = mb + ds
+    # valid encodings nested 100 .. 600 levels, whole, cut short and with the innermost header word changed (only documents of up
+    # to 120 bytes are used below: a depth counter of the decoder -- a u8, a limit off by one -- never met a deep document)
+    for d in (100, 127, 128, 129, 255, 256, 257, 300, 511, 512, 513, 600):
+        for kd in 'ao':
+            v = ('a', []) if kd == 'a' else ('o', [])
+            for _ in range(d):
+                v = ('a', [v]) if kd == 'a' else ('o', [(b'k', v)])
+            e = gen.enc(v)
+            add(e, 'valid')
+            add(e[:-1], 'prefix')
+            add(e[:-4] + b'\x60\x00\x00\x01', 'bitflip')
+            add(e[:-4] + b'\x80\x00\x00\x01', 'bitflip')
     for v in ds:
         e = gen.enc(v)
         if len(e) > 120:
